@@ -112,30 +112,33 @@ impl PushParser {
         let mut depth = 0;
         for token in code.split_whitespace() {
             if token.starts_with("INT[") {
-                PushParser::parse_vector(
-                    push_state,
-                    depth,
-                    &VectorType::Int,
-                    &token[4..token.len() - 1],
-                );
+                // A literal without its closing bracket is malformed and dropped
+                if let Some(elements) = token
+                    .strip_prefix("INT[")
+                    .and_then(|rest| rest.strip_suffix("]"))
+                {
+                    PushParser::parse_vector(push_state, depth, &VectorType::Int, elements);
+                }
                 continue;
             }
             if token.starts_with("FLOAT[") {
-                PushParser::parse_vector(
-                    push_state,
-                    depth,
-                    &VectorType::Float,
-                    &token[6..token.len() - 1],
-                );
+                // A literal without its closing bracket is malformed and dropped
+                if let Some(elements) = token
+                    .strip_prefix("FLOAT[")
+                    .and_then(|rest| rest.strip_suffix("]"))
+                {
+                    PushParser::parse_vector(push_state, depth, &VectorType::Float, elements);
+                }
                 continue;
             }
             if token.starts_with("BOOL[") {
-                PushParser::parse_vector(
-                    push_state,
-                    depth,
-                    &VectorType::Bool,
-                    &token[5..token.len() - 1],
-                );
+                // A literal without its closing bracket is malformed and dropped
+                if let Some(elements) = token
+                    .strip_prefix("BOOL[")
+                    .and_then(|rest| rest.strip_suffix("]"))
+                {
+                    PushParser::parse_vector(push_state, depth, &VectorType::Bool, elements);
+                }
                 continue;
             }
             if "(" == token {
